@@ -11,7 +11,7 @@ for name in "$@"; do
   d=/verif/seeded/$name
   feat=""; grep -q "verif-hooks\|rodbus::verif" $d/demo.rs && feat="--features verif-hooks"
   pkg=rodbus; tdir=rodbus/tests
-  if grep -q '"property": "C1[89]"' $d/meta.json; then pkg=rodbus-ffi; tdir=ffi/rodbus-ffi/tests; feat=""; fi
+  if grep -q '"property": "C1[89]"' $d/meta.json || grep -q 'rodbus-ffi' $d/meta.json; then pkg=rodbus-ffi; tdir=ffi/rodbus-ffi/tests; feat=""; fi
   git checkout -q -- . ; rm -rf rodbus/tests ffi/rodbus-ffi/tests
   git apply $d/patch.diff || { echo "{\"applies\": false}" > $d/verified.json; continue; }
   cargo test --workspace --no-fail-fast --offline > $W/suite.log 2>&1; suite_rc=$?
